@@ -17,6 +17,7 @@ pub mod meta;
 pub mod model;
 pub mod cong;
 pub mod script;
+pub mod wide;
 
 pub fn dispatch(args: &Args, rep: &mut Rep) -> bool {
     match args.prop.as_str() {
@@ -28,6 +29,7 @@ pub fn dispatch(args: &Args, rep: &mut Rep) -> bool {
         "C09" => c09::run(args, rep),
         "C10" => c10::run(args, rep),
         "C10red" => cong::run(args, rep, cong::Focus::Both),
+        "C02wide" | "C09wide" => wide::run(args, rep),
         "C11" | "C12" | "C13" => meta::run(args, rep),
         "C14" => c14::run(args, rep),
         "C15" => c15::run(args, rep),
